@@ -159,12 +159,16 @@ def o_load(inp):
             evs = sorted(((min(e[2]), e[1]) for e in exp_sigs if e[0] == ty), key=lambda x: x[0])
             if len({t for t, _ in evs}) != len(evs):
                 continue
-            exp_force, cur = [], default
+            # the loaded meta sequence is read with no default: it has to carry 4/4 at tick 0 itself
+            # when the file says nothing there
+            if ty == TIMESIG and not any(t == 0 for t, _ in evs):
+                evs = [(0, (4, 4))] + evs
+            exp_force, cur = [], None
             for t, v in evs:
                 if v != cur:
                     exp_force.append((t, v)); cur = v
-            if sig_in_force(tl, ty, default) != exp_force:
-                fails.append(("meta", f"signature timeline: file {exp_force}, loaded {sig_in_force(tl, ty, default)}"))
+            if sig_in_force(tl, ty, None) != exp_force:
+                fails.append(("meta", f"signature timeline: file {exp_force}, loaded {sig_in_force(tl, ty, None)}"))
     return fails
 
 
